@@ -9,7 +9,7 @@ import rxsci.compression.z as z
 import rxsci.compression.zstd as zstd
 
 from rxsim.runner import Check, Outcome
-from rxsim.bytesim import gen_cuts, cut, drive, collect, drive_concurrent, merge_order
+from rxsim.bytesim import gen_cuts, cut, drive, collect, drive_concurrent, merge_order, drive_reused_buffer
 
 TEXT = b'the quick brown fox jumps over the lazy dog \n'
 
@@ -42,7 +42,7 @@ class C16(Check):
     real = ['rxsci.compression.z / zstd compress() and decompress() (current working tree)', 'zlib, zstandard (C libraries)', 'RxPY Subject/pipe']
     stubs = ['producer of the chunks', 'transport re-cutting / truncating the compressed bytes', 'final subscriber']
     assumptions = ['reference decoders (gzip module, zstandard stream reader) are trusted']
-    probe_names = ('buffer_size_aligned_chunks', 'nested_same_operator', 'concurrent_streams', 'one_chunk_inflates>1MiB', 'codec:gzip', 'codec:zstd', 'empty_list', 'empty_chunk_in', 'empty_segment', 'empty_segment_after_end', 'one_byte_segments',
+    probe_names = ('producer_reuses_its_buffer', 'buffer_size_aligned_chunks', 'nested_same_operator', 'concurrent_streams', 'one_chunk_inflates>1MiB', 'codec:gzip', 'codec:zstd', 'empty_list', 'empty_chunk_in', 'empty_segment', 'empty_segment_after_end', 'one_byte_segments',
                    'incompressible', 'input>=64KiB', 'truncations_all_offsets', 'swept_all_single_cuts')
     quick_budget = 20.0
     quick_cap = 100000
@@ -61,6 +61,8 @@ class C16(Check):
             chunks.append({'kind': kind, 'n': size, 'seed': rng.randrange(1000)})
         case = {'codec': codec, 'chunks': chunks, 'cutseed': rng.randrange(1 << 30),
                 'truncs': rng.choice(['all', 'all', 'sample', 'none'])}
+        if not big and rng.random() < 0.25:
+            case['reuse'] = True       # chunks are memoryviews of one buffer that the producer overwrites after each on_next
         if not big and rng.random() < 0.2:
             case['nested'] = rng.choice([codec, codec, 'gzip', 'zstd'])
         if not big and rng.random() < 0.25:
@@ -110,6 +112,22 @@ class C16(Check):
         if ref != plain:
             out.add('not-a-valid-standalone-file', codec, {'reference': repr(ref)[:200], 'len': len(blob)})
             return out
+        if case.get('reuse'):
+            # the producer reuses one mutable buffer for all chunks (readinto idiom), for compress and for decompress
+            p['producer_reuses_its_buffer'] += 1
+            pieces_r, tr = drive_reused_buffer(data, mod.compress())
+            try:
+                ref_r = reference_decode(codec, b''.join(pieces_r)) if tr is not None and tr[0] == 'completed' else tr
+            except Exception as e:
+                ref_r = e
+            if ref_r != plain:
+                out.add('compress-kept-a-reference-to-a-chunk', codec, {'terminal': repr(tr), 'decoded': repr(ref_r)[:200], 'plain': repr(plain)[:200]})
+                return out
+            cs_r = self.schedules(case, blob)
+            got_r, term_r = drive_reused_buffer(cut(blob, cs_r), mod.decompress())
+            if term_r is None or term_r[0] != 'completed' or b''.join(got_r) != plain:
+                out.add('decompress-kept-a-reference-to-a-chunk', codec, {'terminal': repr(term_r), 'cuts': cs_r})
+                return out
         n = len(blob)
         cuts = self.schedules(case, blob)
         scheds = [cuts]
